@@ -1,9 +1,173 @@
-//! C14 parts B (establishment timeout) and C (TLS handshake timeout). Filled in once the
-//! tunnel door exists; until then the parts are reported as not exercised.
+//! C14 parts B (connection-establishment timeout, virtual time) and C (TLS handshake timeout,
+//! real time with bands).
 
-use crate::common::{Args, Reporter};
+use crate::common::{self, Args, Reporter, Rng};
+use crate::env;
+use crate::kit::*;
+use crate::l2::*;
+use crate::tun::*;
 use serde_json::json;
+use std::sync::atomic::Ordering;
+use std::sync::Arc;
+use std::time::Duration;
+use tokio::io::{AsyncReadExt, AsyncWriteExt};
+use trusttunnel::verif::tunnel::{Fwd, MuxChoice, Policy, Proto};
 
-pub fn run_parts(rep: &Reporter, _args: &Args) {
-    rep.set("parts", json!({"A_idle_timer": "exercised", "B_establishment_timeout": "not exercised yet", "C_tls_handshake_timeout": "not exercised yet"}));
+fn part_b(rep: &Reporter, args: &Args) {
+    let dir = env::work_dir(&args.root, "c14");
+    let rt = env::rt_paused();
+    let mut r = Rng::derive(args.seed, 0xc14b, 0);
+    let mut id = 140_000u64;
+    for t_est_ms in [3_000u64, 7_000, 30_000] {
+        let ctx = Arc::new(env::make_ctx(&dir, env::CtxOpts { establish_timeout: Some(Duration::from_millis(t_est_ms)), ..Default::default() }));
+        // connect delays around the limit (in 1/8 steps of T) and "never"
+        let mut delays: Vec<Option<u64>> = vec![None];
+        for k in [0u64, 1, 4, 7, 9, 12, 16, 40] { delays.push(Some(t_est_ms * k / 8)); }
+        for _ in 0..args.qt(4, 60) { delays.push(Some(r.below(2 * t_est_ms))); }
+        for d in delays {
+            for proto in [Proto::H1, Proto::H2] {
+                id += 1;
+                let outcome = match d { None => Outcome::Never, Some(ms) => Outcome::Delayed(ms, Box::new(Outcome::Canned(vec![]))) };
+                let oc = outcome.clone();
+                let fwd = Arc::new(RecFwd { log: Default::default(), decide: Box::new(move |_| oc.clone()), udp: MuxChoice::Real, icmp: MuxChoice::NotConfigured, check_auth_err: None, received: Default::default(), abandoned: Default::default() });
+                let req = Req::connect("slow.dest.test:443");
+                let how = How::Tunnel(Fwd::Scripted(fwd.clone()), Policy::Default);
+                let (resp, elapsed_ms) = rt.block_on(async {
+                    let t0 = tokio::time::Instant::now();
+                    // the client measures when the response head arrives
+                    let resp = match proto {
+                        Proto::H1 => {
+                            let sess = open_session(&ctx, Proto::H1, how, "main.test", false, id);
+                            let (mut rd, mut wr) = tokio::io::split(sess.client);
+                            let _ = wr.write_all(&h1_encode(&req)).await;
+                            let mut buf = vec![0u8; 4096];
+                            let mut got = vec![];
+                            let mut at = None;
+                            loop {
+                                match tokio::time::timeout(Duration::from_millis(5 * t_est_ms), rd.read(&mut buf)).await {
+                                    Ok(Ok(n)) if n > 0 => { got.extend_from_slice(&buf[..n]); if let Ok(Some(_)) = parse_h1_head(&got) { at = Some(t0.elapsed()); break; } }
+                                    _ => break,
+                                }
+                            }
+                            let mut resp = Resp::default();
+                            if let Ok(Some(h)) = parse_h1_head(&got) { resp.status = Some(h.status); resp.headers = h.headers; resp.heads = 1; }
+                            (resp, at)
+                        }
+                        _ => {
+                            let sess = open_session(&ctx, Proto::H2, how, "main.test", false, id);
+                            let mut resp = Resp::default();
+                            let mut at = None;
+                            if let Ok((mut send, conn)) = h2_client(sess.client).await {
+                                let _ = futures::future::poll_fn(|cx| send.poll_ready(cx)).await;
+                                if let Ok((fut, _tx)) = send.send_request(http::Request::builder().method("CONNECT").uri("slow.dest.test:443").body(()).unwrap(), false) {
+                                    if let Ok(Ok(rsp)) = tokio::time::timeout(Duration::from_millis(5 * t_est_ms), fut).await {
+                                        at = Some(t0.elapsed());
+                                        resp.status = Some(rsp.status().as_u16());
+                                        resp.headers = rsp.headers().iter().map(|(n, v)| (n.as_str().to_string(), String::from_utf8_lossy(v.as_bytes()).to_string())).collect();
+                                        resp.heads = 1;
+                                    }
+                                }
+                                conn.abort();
+                            }
+                            (resp, at)
+                        }
+                    };
+                    (resp.0, resp.1.map(|d| d.as_millis() as u64))
+                });
+                rep.evals(1);
+                rep.distinct(common::fnv(format!("est|{}|{:?}|{:?}", t_est_ms, d, proto).as_bytes()));
+                let w = json!({"kind":"establishment-timeout","T_est_ms":t_est_ms,"connect_completes_after_ms":d,"protocol":format!("{:?}", proto),"response":resp.summary(),"response_at_ms":elapsed_ms,"abandoned_connects":fwd.abandoned.load(Ordering::SeqCst)});
+                let completes_in_time = matches!(d, Some(ms) if ms + 2 < t_est_ms);
+                let completes_late = match d { None => true, Some(ms) => ms > t_est_ms + 2 };
+                if completes_in_time {
+                    if resp.status != Some(200) { rep.violation("connection attempt completing before the establishment timeout was abandoned", w); }
+                    else { rep.tally("establishment: attempt within the limit accepted", 1); }
+                } else if completes_late {
+                    let at = elapsed_ms.unwrap_or(u64::MAX);
+                    if resp.status != Some(502) || !resp.header("x-warning").map(|v| v.starts_with("302")).unwrap_or(false) {
+                        rep.violation("connection attempt exceeding the establishment timeout not reported as 502/302", w);
+                    } else if at + 5 < t_est_ms {
+                        rep.violation("502/302 sent before the establishment timeout elapsed", w);
+                    } else if at > t_est_ms + t_est_ms / 10 + 50 {
+                        rep.violation("502/302 sent long after the establishment timeout", w);
+                    } else if fwd.abandoned.load(Ordering::SeqCst) != 1 {
+                        rep.violation("timed-out connection attempt was not released (future still alive)", w);
+                    } else { rep.tally("establishment: late attempt abandoned at T with 502/302", 1); }
+                } else {
+                    rep.tally("establishment: attempt completing at the deadline (either)", 1);
+                }
+            }
+        }
+    }
+}
+
+fn part_c(rep: &Reporter, args: &Args) {
+    let dir = env::work_dir(&args.root, "c14");
+    let rt = env::rt_multi(4);
+    rt.block_on(async {
+        let t_hs = Duration::from_millis(1500);
+        let hosts = Hosts { main: vec![("main.test".into(), vec![])], ..Default::default() };
+        let ep = start_endpoint(&dir, "127.0.0.1", &hosts, None, vec![], (true, true, false), move |b| b.tls_handshake_timeout(t_hs)).await;
+        let hello = crate::props::c12::rustls_hello("main.test", &[b"h2", b"http/1.1"]).bytes;
+        // (name, bytes to send at once, expect closed by the endpoint)
+        let stalls: Vec<(&str, Vec<u8>)> = vec![
+            ("nothing sent", vec![]),
+            ("5 bytes of record header", hello[..5].to_vec()),
+            ("half a ClientHello", hello[..hello.len() / 2].to_vec()),
+            ("complete ClientHello, then silence", hello.clone()),
+        ];
+        let mut js = vec![];
+        for round in 0..args.qt(1, 6) {
+            for (name, bytes) in stalls.clone() {
+                let addr = ep.addr;
+                js.push(tokio::spawn(async move {
+                    let t0 = std::time::Instant::now();
+                    let Ok(mut s) = tokio::net::TcpStream::connect(addr).await else { return (name, round, None, 0usize) };
+                    let _ = s.write_all(&bytes).await;
+                    let mut buf = vec![0u8; 8192];
+                    let mut got = 0usize;
+                    loop {
+                        match tokio::time::timeout(Duration::from_millis(2 * 1500 + 2500), s.read(&mut buf)).await {
+                            Ok(Ok(0)) | Ok(Err(_)) => return (name, round, Some(t0.elapsed()), got),
+                            Ok(Ok(n)) => got += n,
+                            Err(_) => return (name, round, None, got),
+                        }
+                    }
+                }));
+            }
+        }
+        for j in js {
+            let Ok((name, round, closed_after, got)) = j.await else { continue };
+            rep.evals(1);
+            rep.distinct(common::fnv(format!("hs|{}|{}", name, round).as_bytes()));
+            let w = json!({"kind":"tls-handshake-timeout","stall":name,"T_hs_ms":1500,"closed_after_ms":closed_after.map(|d| d.as_millis() as u64),"server_bytes":got});
+            match closed_after {
+                None => rep.violation("stalled TLS handshake not dropped within 2 x handshake timeout + margin", w),
+                Some(d) if d < Duration::from_millis(700) => rep.violation("stalled TLS handshake dropped long before its timeout", w),
+                Some(_) => rep.tally("tls: stalled handshake dropped within [T/2, 2T + margin]", 1),
+            }
+        }
+        // a slow but timely client: ClientHello after T/4 must still be served
+        for _ in 0..args.qt(2, 10) {
+            let addr = ep.addr;
+            let Ok(mut s) = tokio::net::TcpStream::connect(addr).await else { continue };
+            let t0 = std::time::Instant::now();
+            tokio::time::sleep(Duration::from_millis(375)).await;
+            let over = t0.elapsed().as_millis() as u64 - 375;
+            let _ = s.write_all(&hello).await;
+            let mut buf = vec![0u8; 8192];
+            let n = tokio::time::timeout(Duration::from_secs(2), s.read(&mut buf)).await.ok().and_then(|x| x.ok()).unwrap_or(0);
+            rep.evals(1);
+            if over > 300 { rep.inconclusive("sleep overshoot in the slow-client scenario"); }
+            else if n == 0 { rep.violation("ClientHello arriving at a quarter of the handshake timeout was refused", json!({"kind":"tls-handshake-timeout","T_hs_ms":1500,"sent_after_ms":375})); }
+            else { rep.tally("tls: ClientHello at T/4 answered with a ServerHello", 1); }
+        }
+        ep.task.abort();
+    });
+}
+
+pub fn run_parts(rep: &Reporter, args: &Args) {
+    part_b(rep, args);
+    part_c(rep, args);
+    rep.set("parts", json!({"A_idle_timer": "exercised (virtual time)", "B_establishment_timeout": "exercised (virtual time, scripted connector with chosen completion time, H1 + H2)", "C_tls_handshake_timeout": "exercised (real time on loopback, T_hs = 1.5 s, bands [T/2, 2T + 2.5 s])"}));
 }
